@@ -274,16 +274,11 @@ def features(f):
     return out
 
 
-# ---- the fragment with a Lean model (lean/StepModel/GenPyStmt.lean): assignment, IF, REPEAT with an increment control only,
-# SKIP, ESCAPE, BEGIN-END (a sequence), RETURN; LOCAL initial values are written by FUNCPrint as leading assignments
+# ---- the fragment with a Lean model (lean/StepModel/GenPyStmt.lean): assignment, IF, REPEAT with any of its controls,
+# SKIP, ESCAPE, BEGIN-END (a sequence), RETURN (everything but CASE); LOCAL initial values are written by FUNCPrint as leading assignments
 
 def in_fragment(f):
-    for s in walk(f.body):
-        if s[0] in ("while", "until", "case"):
-            return False
-        if s[0] == "for" and (s[5] is not None or s[6] is not None):
-            return False
-    return True
+    return not any(s[0] == "case" for s in walk(f.body))
 
 
 def lean_tokens(f):
@@ -302,7 +297,14 @@ def lean_tokens(f):
         if k == "if":
             return ["if"] + X.prefix_of(s[1]) + seq(s[2]) + seq(s[3] or [])
         if k == "for":
-            return ["rep", s[1]] + X.prefix_of(s[2]) + X.prefix_of(s[3]) + [str(1 if s[4] is None else s[4])] + seq(s[7])
+            opt = lambda e: ["none"] if e is None else ["some"] + X.prefix_of(e)
+            return ["rep", s[1]] + X.prefix_of(s[2]) + X.prefix_of(s[3]) + [str(1 if s[4] is None else s[4])] + opt(s[5]) + opt(s[6]) + seq(s[7])
+        if k in ("while", "until"):
+            # counter := n; REPEAT WHILE (counter > 0) | UNTIL (counter <= 0); body; counter := counter - 1; END_REPEAT
+            c = ("a", s[1])
+            ctl = (["some"] + X.prefix_of(("b", "gt", c, ("i", 0))) + ["none"]) if k == "while" else (["none", "some"] + X.prefix_of(("b", "le", c, ("i", 0))))
+            dec = ["asg", s[1]] + X.prefix_of(("b", "minus", c, ("i", 1)))
+            return ["seq", "asg", s[1], "i", str(s[2]), "whl"] + ctl + (["seq"] + seq(s[3]) + dec)
         if k == "skip":
             return ["skip"]
         if k == "escape":
